@@ -122,7 +122,7 @@ def oracle(fn, m, z0, out):
         scale = abs(v) + abs(zi * i)
         if scale < 1e-9 * np.linalg.norm(st):
             return 'skip'
-        if abs(v - zi * i) > 1e-8 * scale * max(1.0, s[0] / s[2]):
+        if not abs(v - zi * i) <= 1e-8 * scale * max(1.0, s[0] / s[2]):
             return 'zi[%d] is not the impedance seen at port %d with port %d terminated: v=%s zi*i=%s' % (port - 1, port, other, v, zi * i)
     return None
 
